@@ -55,6 +55,12 @@ for l in open('/verif/properties.jsonl'):
     p = json.loads(l); titles[p['id']] = p['title']
 
 pending_reason = {
+ "C16": dict(text="Deductive proof (SOUND and COMPLETE) on the real plonk.go: evalL0 is the first Lagrange polynomial, checkPartialProducts emits exactly the chunked partial-product relation (ragged last chunk included), evalVanishingPoly combines the boundary terms, the permutation chunks and the gate constraints by the alpha powers (reduceWithPowers = Horner), and PlonkChip.Verify accepts exactly when vanishing(zeta) equals Z_H(zeta) times the quotient recombined from its chunks; results are canonical GF(p^2) values.",
+             note=TRUST + " The gate constraint vector is used through the thin contract of EvaluateGateConstraints (length and canonicity only; the gate formulas are C15). In COMPLETE mode the function's own AssertIsEqual calls are the acceptance premise (flag acceptance-asserts).",
+             technique="contracts + VC generation over go/ssa + SMT; recursive GF(p^2) specifications", design="§4 C16"),
+ "C18": dict(text="Deductive proof on the real GateInstanceFromId, its regexp table and the deserialize* handlers, with the code's patterns translated to SMT-LIB regular languages: for each of the 14 identifier families plonky2 emits for supported gates (symbolic decimal parameters) the call returns, for every enumerated map iteration order, the gate type named with exactly the stated parameters and does not panic; for 11 families of identifiers of unimplemented gates (lookup, lookup table, the u32 crate gates, comparison, range check, and Exponentiation/RandomAccess/CosetInterpolation with D != 2) every path panics.",
+             note=TRUST + " Models assumed: regexp (RE2 subset -> RegLan; FindStringSubmatch = leftmost match, decided structurally for identifiers that are concatenations of literals and parameters, otherwise any decomposition), strconv.Atoi/ParseUint on digit strings, strings.Split/TrimSpace uninterpreted (the weight list premise idlist says every trimmed piece is a decimal below 2^64; parsed weight values are not part of the statement). Iteration orders: insertion order and its reversal (quick), all 14 rotations and the reversal (thorough); any order visits a subset of the non-matching keys before the matching one. Parameters are bounded by 2^63 (larger values are refused by Atoi, not misbound). The identifier families are those of plonky2 at the revision the repository vendors (crypto/plonky2_u32) and of plonky2's Debug derive; hiding-refusal in ReadCommonCircuitData is part of C19's contract of that function.",
+             technique="contracts + VC generation over go/ssa + SMT strings/regular languages (z3, cvc5 --strings-exp) + structural regex walk", design="§4 C18"),
  # filled in / removed as checks are built; every unclaimed property must have a reason
 }
 
@@ -92,7 +98,7 @@ manifest = {
  "engines": [{"name": "govc", "path": "/verif/tool/cmd/govc", "serves_properties": sorted(claimed), "kind_free_text": "contract-based deductive verifier for the Go module: contracts in //@ comment files, VC generation by symbolic execution of go/ssa, SMT back ends z3-new/cvc5/z3"}],
  "checks": checks,
  "not_applicable": na,
- "notes": "Exit codes of govc check: 0 all obligations discharged (known findings printed as KNOWN-FINDING), 1 VIOLATION, 2 inconclusive/broken (unbound contract, code outside the supported subset, vacuous precondition). Fix commits in /repo: see /verif/known_findings.txt.",
+ "notes": "Exit codes of govc check: 0 all obligations discharged (known findings printed as KNOWN-FINDING), 1 VIOLATION (a failed obligation; an obligation that can no longer be generated - function outside the supported subset, unbound contract, vacuous precondition - is reported the same way with no-failing-input-found). Fix commits in /repo: see /verif/known_findings.txt.",
 }
 json.dump(manifest, open('/verif/MANIFEST.json', 'w'), indent=1)
 print("claimed:", sorted(claimed), "not_applicable:", len(na))
